@@ -12,6 +12,7 @@ SHARDS = {"quick": 8, "thorough": 16}
 TIMEOUT = {"quick": 900, "thorough": 7200}
 REQUIRED = {"seed": 800, "master_key": 200, "constructors": 60, "seed_routes": 100, "probe.bip39_seed_from_mnemonic": 100,
             "probe.master_key": 100}
+ANCHORS = ['bip39:bip39_seed_from_mnemonic', 'bip32:PrvKeyNode.master_key', 'base_wallet:BaseWallet.from_mnemonic', 'base_wallet:BaseWallet.from_entropy_hex', 'base_wallet:BaseWallet.from_bip39_seed_hex', 'base_wallet:BaseWallet.from_bip39_seed_bytes', 'base_wallet:BaseWallet.from_extended_key', 'base_wallet:BaseWallet.new_wallet']
 RULE = ("mnemonic/passphrase strings assembled from Unicode building blocks for which NFC, NFD, NFKC and NFKD all differ "
         "(precomposed vs combining, ligatures, Angstrom sign, full/half-width, squared units, Hangul syllables vs jamo, CJK "
         "compatibility ideographs, mis-ordered combining marks, U+3000, astral planes, NUL, lone surrogates, empty, >128-byte "
